@@ -392,6 +392,11 @@ type Sparse struct {
 	Z  int     `plenc:"100"`
 	Y  []int   `plenc:"250"`
 	In *Sparse `plenc:"17"`
+	// packed slices at indexes that are 1 / 2 modulo 64 and 128 (anything that keeps
+	// per-field state in a word-sized mask confuses them with fields 1 and 2)
+	W []int     `plenc:"65"`
+	X []float64 `plenc:"129"`
+	V []bool    `plenc:"66"`
 }
 
 type SparseNew struct {
@@ -403,6 +408,9 @@ type SparseNew struct {
 	N1 int        `plenc:"101"`
 	N2 string     `plenc:"300"`
 	N3 []string   `plenc:"1000"`
+	W  []int      `plenc:"65"`
+	X  []float64  `plenc:"129"`
+	V  []bool     `plenc:"66"`
 }
 
 // ---------------------------------------------------------------------------
